@@ -260,7 +260,7 @@ def r09_8(ctx):
 
 
 @rule("R09.3", "C09", "removal safety: operands that can have other users (de-duplicated by name) are only removed under a use-count guard", min_instances=4)
-def r09_3(ctx):
+def r09_3(ctx, skip=()):
     idx = get_index(ctx.env)
     # classes whose removal is harmless: inlined literals (no declaration is ever emitted for them)
     init = idx.func("RZILTransformer.__init__")
@@ -293,6 +293,8 @@ def r09_3(ctx):
         elif c != "RZILTransformer":
             ctx.check(f"{c}.{q}: removes operands", False, "operands are removed by the constant folders only", "calls rm_op_by_name", fn_where(idx, idx.func(f"{c}.{q}")))
     for q in seen_q:
+        if q in skip:
+            continue
         fi = idx.func(f"RZILTransformer.{q}")
         for p in paths_of(fi.node):
             for e in p.calls(tail="rm_op_by_name"):
@@ -360,9 +362,16 @@ def r09_5(ctx):
                 vals.add((ctor(o.value, "val"), t.fields.get("_signed"), t.fields.get("_bit_width")) if isinstance(t, AObj) else (ctor(o.value, "val"),))
         vals.discard("RAISE") if len(vals) > 1 else None
         ctx.check(f"number[{text}]", (exp, True, 32) in vals and all(v == (exp, True, 32) for v in vals if v != "RAISE"), str((exp, True, 32)), str(sorted(map(str, vals))), fn_where(idx, fi))
-    # rendering
+    literal_rendering(ctx)
+
+
+def literal_rendering(ctx):
+    """a literal is printed as SN / UN of its TYPE's width, whatever its value is (a value that does not fit its type is a matter of
+    literal typing, R09.1 - the printed width must still be the width every consumer was typed against)"""
+    idx = get_index(ctx.env)
     fr = idx.func("LetVar.get_rzil_val")
-    for signed, val, exp in ((True, 5, "SN(<W>, 5)"), (False, 5, "UN(<W>, 5)"), (True, 255, "SN(<W>, 0xff)"), (False, 32, "UN(<W>, 0x20)")):
+    for signed, val, exp in ((True, 5, "SN(<W>, 5)"), (False, 5, "UN(<W>, 5)"), (True, 255, "SN(<W>, 0xff)"), (False, 32, "UN(<W>, 0x20)"),
+                             (True, 0x1ffffffff, "SN(<W>, 0x1ffffffff)"), (False, 0xffffffffffffffff, "UN(<W>, 0xffffffffffffffff)"), (True, 0x80000000, "SN(<W>, 0x80000000)")):
         outs = Interp(idx).explore(lambda i: i.call_function(fr, [], self_obj=AObj("Number", {"value": val, "value_type": mk_vt("t", signed, Sym("W"))}, label="self")))
         obs = {normalise(outcome_text(o)) for o in outs}
         ctx.check(f"literal rendering [{'s' if signed else 'u'}, {val}]", obs == {exp}, exp, str(sorted(obs)), fn_where(idx, fr))
